@@ -91,3 +91,16 @@ chk('C15', 'model_checking',
     'processing point); an execution that ends in a failed assertion, sanitizer report, crash or non-termination is rejected and reported.',
     'Memory errors / UB below object level are seen by the sanitizers on the replayed histories, not by the specification; libavoid only (2 shapes, 1 junction, 3 connectors). F10 and F27 are known findings; F16 was repaired (fix: commit).',
     'TLA+ object-lifecycle protocol; TLC-generated API histories replayed on a sanitizer build; trace validation', '4/C15')
+
+chk('C11', 'model_checking',
+    'Pins.tla judges the projection recorded at every processing point of API histories that are behaviours of Lifecycle.tla: pin positions are re-derived from the pin definition and the CURRENT shape rectangle '
+    '(so pins follow moves/resizes); every pin-attached end lies on a pin of its class with an existential matching in which no exclusive pin serves two ends; orthogonal routes leave pins in a permitted direction '
+    '(positive buffer); junction ends end at the junction; checkpoints are visited in order.',
+    'Executions that crash belong to C15. Demand beyond pin capacity is outside ("provided a free pin exists"). 2 shapes, pin catalogue of 6, 3 connectors.',
+    'TLA+ protocol-generated histories replayed; record validation with existential pin matching', '4/C11')
+chk('C12', 'model_checking',
+    'Hyperedge.tla builds the abstract graph (junction nodes, one leaf per non-junction connector end, an edge per connector) from the projection recorded after registerHyperedgeForRerouting + processTransaction '
+    'and after a follow-up transaction, and requires: one tree, leaves exactly the terminals the hyperedge was built with, no junction leaf, both ends of every connector attached, routes joining the positions of '
+    'the attached objects, reported new/deleted lists consistent with the live objects. Scenarios are TLC-enumerated: every set of 3..4 pin terminals of three shapes x junction position x improvement options x follow-up.',
+    'Orthogonal routing only (hyperedge rerouting is orthogonal). F12 and F28 are known findings.',
+    'TLA+ declarative tree/terminal specification; TLC-enumerated scenarios replayed; record validation', '4/C12')
